@@ -230,48 +230,6 @@ Definition expected_cmd_OpenAndxRequest : cmd_desc := {|
   ];
   cd_opaque := ["Marshal: for i := range c.Reserved { binary.BigEndian.PutUint16(buf2, uint16(c.Reserved[i])) rawParametersContent = append(rawParametersContent, buf2...) }"; "Unmarshal: for i := range c.Reserved { c.Reserved[i] = types.USHORT(binary.BigEndian.Uint16(rawParametersContent[offset : offset+2])) offset += 2 }"]
 |}.
-Definition expected_cmd_ReadRawRequest : cmd_desc := {|
-  cd_name := "ReadRawRequest";
-  cd_code := 26;
-  cd_andx := false;
-  cd_request := true;
-  cd_params_first := true;
-  cd_empty := EmptyParams;
-  cd_decl := [("FID", TInt 2); ("Offset", TInt 4); ("MaxCountOfBytesToReturn", TInt 2); ("MinCountOfBytesToReturn", TInt 2); ("Timeout", TInt 4); ("Reserved", TInt 2); ("OffsetHigh", TInt 4)];
-  cd_marshal := [
-    MInt SP "FID" 2 BE;
-    MInt SP "Offset" 4 BE;
-    MInt SP "MaxCountOfBytesToReturn" 2 BE;
-    MInt SP "MinCountOfBytesToReturn" 2 BE;
-    MInt SP "Timeout" 4 BE;
-    MInt SP "Reserved" 2 BE;
-    MOpaque "if c.GetParameters().WordCount == 0x0A { buf4 = make([]byte, 4) binary.BigEndian.PutUint32(buf4, uint32(c.OffsetHigh)) rawParametersContent = append(rawParametersContent, buf4...) }"
-  ];
-  cd_unmarshal := [
-    UReset SP;
-    UGuard SP (EConst 2);
-    UInt SP "FID" 2 BE (EConst 2);
-    UAdv (EConst 2);
-    UGuard SP (EConst 4);
-    UInt SP "Offset" 4 BE (EConst 4);
-    UAdv (EConst 4);
-    UGuard SP (EConst 2);
-    UInt SP "MaxCountOfBytesToReturn" 2 BE (EConst 2);
-    UAdv (EConst 2);
-    UGuard SP (EConst 2);
-    UInt SP "MinCountOfBytesToReturn" 2 BE (EConst 2);
-    UAdv (EConst 2);
-    UGuard SP (EConst 4);
-    UInt SP "Timeout" 4 BE (EConst 4);
-    UAdv (EConst 4);
-    UGuard SP (EConst 2);
-    UInt SP "Reserved" 2 BE (EConst 2);
-    UAdv (EConst 2);
-    UOpaque "if c.GetParameters().WordCount == 0x0A { if len(rawParametersContent) < offset+4 { return offset, fmt.Errorf(""rawParametersContent too short for OffsetHigh"") } c.OffsetHigh = types.ULONG(binary.BigEndian.Uint32(rawParametersContent[offset : offset+4])) offset += 4 }";
-    UReset SD
-  ];
-  cd_opaque := ["Marshal: if c.GetParameters().WordCount == 0x0A { buf4 = make([]byte, 4) binary.BigEndian.PutUint32(buf4, uint32(c.OffsetHigh)) rawParametersContent = append(rawParametersContent, buf4...) }"; "Unmarshal: if c.GetParameters().WordCount == 0x0A { if len(rawParametersContent) < offset+4 { return offset, fmt.Errorf(""rawParametersContent too short for OffsetHigh"") } c.OffsetHigh = types.ULONG(binary.BigEndian.Uint32(rawParametersContent[offset : offset+4])) offset += 4 }"]
-|}.
 Definition expected_cmd_SessionSetupAndxRequest : cmd_desc := {|
   cd_name := "SessionSetupAndxRequest";
   cd_code := 115;
@@ -526,7 +484,7 @@ Definition expected_cmd_WriteAndCloseRequest : cmd_desc := {|
     MInt SP "CountOfBytesToWrite" 2 BE;
     MInt SP "WriteOffsetInBytes" 4 BE;
     MNested SP "LastWriteTime" (TNamed "FILETIME") "";
-    MOpaque "if c.Reserved != [3]types.ULONG{0, 0, 0} { for _, reserved := range c.Reserved { buf4 = make([]byte, 4) binary.BigEndian.PutUint32(buf4, uint32(reserved)) rawParametersContent = append(rawParametersContent, buf4...) } }"
+    MIf (MCArrNonZero "Reserved") (MIntArray SP "Reserved" 4 BE)
   ];
   cd_unmarshal := [
     UReset SP;
@@ -542,7 +500,9 @@ Definition expected_cmd_WriteAndCloseRequest : cmd_desc := {|
     UGuard SP (EConst 8);
     UNested SP "LastWriteTime" (TNamed "FILETIME") ERest;
     UAdv ERead;
-    UOpaque "if c.GetParameters().WordCount == 12 { if len(rawParametersContent) < offset+12 { return offset, fmt.Errorf(""rawParametersContent too short for Reserved"") } c.Reserved = [3]types.ULONG{ types.ULONG(binary.BigEndian.Uint32(rawParametersContent[offset : offset+4])), types.ULONG(binary.BigEndian.Uint32(rawParametersContent[offset+4 : offset+8])), types.ULONG(binary.BigEndian.Uint32(rawParametersContent[offset+8 : offset+12])), } offset += 12 }";
+    UIf (UCWcEq 12) (UGuard SP (EConst 12));
+    UOpaque "c.Reserved = [3]types.ULONG{ types.ULONG(binary.BigEndian.Uint32(rawParametersContent[offset : offset+4])), types.ULONG(binary.BigEndian.Uint32(rawParametersContent[offset+4 : offset+8])), types.ULONG(binary.BigEndian.Uint32(rawParametersContent[offset+8 : offset+12])), }";
+    UIf (UCWcEq 12) (UAdv (EConst 12));
     UReset SD;
     UGuard SD (EConst 1);
     UInt SD "Pad" 1 LE (EConst 1);
@@ -550,126 +510,7 @@ Definition expected_cmd_WriteAndCloseRequest : cmd_desc := {|
     UGuard SD (EField "CountOfBytesToWrite");
     UBytes SD "Data" (EField "CountOfBytesToWrite")
   ];
-  cd_opaque := ["Marshal: if c.Reserved != [3]types.ULONG{0, 0, 0} { for _, reserved := range c.Reserved { buf4 = make([]byte, 4) binary.BigEndian.PutUint32(buf4, uint32(reserved)) rawParametersContent = append(rawParametersContent, buf4...) } }"; "Unmarshal: if c.GetParameters().WordCount == 12 { if len(rawParametersContent) < offset+12 { return offset, fmt.Errorf(""rawParametersContent too short for Reserved"") } c.Reserved = [3]types.ULONG{ types.ULONG(binary.BigEndian.Uint32(rawParametersContent[offset : offset+4])), types.ULONG(binary.BigEndian.Uint32(rawParametersContent[offset+4 : offset+8])), types.ULONG(binary.BigEndian.Uint32(rawParametersContent[offset+8 : offset+12])), } offset += 12 }"]
-|}.
-Definition expected_cmd_WriteAndxRequest : cmd_desc := {|
-  cd_name := "WriteAndxRequest";
-  cd_code := 47;
-  cd_andx := true;
-  cd_request := true;
-  cd_params_first := true;
-  cd_empty := EmptyBoth;
-  cd_decl := [("FID", TInt 2); ("Offset", TInt 4); ("Timeout", TInt 4); ("WriteMode", TInt 2); ("Remaining", TInt 2); ("Reserved", TInt 2); ("DataLength", TInt 2); ("DataOffset", TInt 2); ("OffsetHigh", TInt 4); ("Pad", TInt 1); ("Data", TBytes)];
-  cd_marshal := [
-    MInt SD "Pad" 1 LE;
-    MBytes SD "Data";
-    MInt SP "FID" 2 BE;
-    MInt SP "Offset" 4 BE;
-    MInt SP "Timeout" 4 BE;
-    MInt SP "WriteMode" 2 BE;
-    MInt SP "Remaining" 2 BE;
-    MInt SP "Reserved" 2 BE;
-    MInt SP "DataLength" 2 BE;
-    MInt SP "DataOffset" 2 BE;
-    MOpaque "if c.OffsetHigh != 0 { buf4 = make([]byte, 4) binary.BigEndian.PutUint32(buf4, uint32(c.OffsetHigh)) rawParametersContent = append(rawParametersContent, buf4...) }"
-  ];
-  cd_unmarshal := [
-    UReset SP;
-    UGuard SP (EConst 2);
-    UInt SP "FID" 2 BE (EConst 2);
-    UAdv (EConst 2);
-    UGuard SP (EConst 4);
-    UInt SP "Offset" 4 BE (EConst 4);
-    UAdv (EConst 4);
-    UGuard SP (EConst 4);
-    UInt SP "Timeout" 4 BE (EConst 4);
-    UAdv (EConst 4);
-    UGuard SP (EConst 2);
-    UInt SP "WriteMode" 2 BE (EConst 2);
-    UAdv (EConst 2);
-    UGuard SP (EConst 2);
-    UInt SP "Remaining" 2 BE (EConst 2);
-    UAdv (EConst 2);
-    UGuard SP (EConst 2);
-    UInt SP "Reserved" 2 BE (EConst 2);
-    UAdv (EConst 2);
-    UGuard SP (EConst 2);
-    UInt SP "DataLength" 2 BE (EConst 2);
-    UAdv (EConst 2);
-    UGuard SP (EConst 2);
-    UInt SP "DataOffset" 2 BE (EConst 2);
-    UAdv (EConst 2);
-    UOpaque "if c.GetParameters().WordCount == 0x0E { if len(rawParametersContent) < offset+4 { return offset, fmt.Errorf(""rawParametersContent too short for OffsetHigh"") } c.OffsetHigh = types.ULONG(binary.BigEndian.Uint32(rawParametersContent[offset : offset+4])) offset += 4 }";
-    UReset SD;
-    UGuard SD (EConst 1);
-    UInt SD "Pad" 1 LE (EConst 1);
-    UAdv (EConst 1);
-    UGuard SD (EField "DataLength");
-    UBytes SD "Data" (EField "DataLength")
-  ];
-  cd_opaque := ["Marshal: if c.OffsetHigh != 0 { buf4 = make([]byte, 4) binary.BigEndian.PutUint32(buf4, uint32(c.OffsetHigh)) rawParametersContent = append(rawParametersContent, buf4...) }"; "Unmarshal: if c.GetParameters().WordCount == 0x0E { if len(rawParametersContent) < offset+4 { return offset, fmt.Errorf(""rawParametersContent too short for OffsetHigh"") } c.OffsetHigh = types.ULONG(binary.BigEndian.Uint32(rawParametersContent[offset : offset+4])) offset += 4 }"]
-|}.
-Definition expected_cmd_WriteRawRequest : cmd_desc := {|
-  cd_name := "WriteRawRequest";
-  cd_code := 29;
-  cd_andx := false;
-  cd_request := true;
-  cd_params_first := true;
-  cd_empty := EmptyBoth;
-  cd_decl := [("FID", TInt 2); ("CountOfBytes", TInt 2); ("Reserved1", TInt 2); ("Offset", TInt 4); ("Timeout", TInt 4); ("WriteMode", TInt 2); ("Reserved2", TInt 4); ("DataLength", TInt 2); ("DataOffset", TInt 2); ("OffsetHigh", TInt 4); ("Pad", TBytes); ("Data", TBytes)];
-  cd_marshal := [
-    MBytes SD "Pad";
-    MBytes SD "Data";
-    MInt SP "FID" 2 BE;
-    MInt SP "CountOfBytes" 2 BE;
-    MInt SP "Reserved1" 2 BE;
-    MInt SP "Offset" 4 BE;
-    MInt SP "Timeout" 4 BE;
-    MInt SP "WriteMode" 2 BE;
-    MInt SP "Reserved2" 4 BE;
-    MInt SP "DataLength" 2 BE;
-    MInt SP "DataOffset" 2 BE;
-    MOpaque "if c.OffsetHigh != 0x00000000 { buf4 = make([]byte, 4) binary.BigEndian.PutUint32(buf4, uint32(c.OffsetHigh)) rawParametersContent = append(rawParametersContent, buf4...) }"
-  ];
-  cd_unmarshal := [
-    UReset SP;
-    UGuard SP (EConst 2);
-    UInt SP "FID" 2 BE (EConst 2);
-    UAdv (EConst 2);
-    UGuard SP (EConst 2);
-    UInt SP "CountOfBytes" 2 BE (EConst 2);
-    UAdv (EConst 2);
-    UGuard SP (EConst 2);
-    UInt SP "Reserved1" 2 BE (EConst 2);
-    UAdv (EConst 2);
-    UGuard SP (EConst 4);
-    UInt SP "Offset" 4 BE (EConst 4);
-    UAdv (EConst 4);
-    UGuard SP (EConst 4);
-    UInt SP "Timeout" 4 BE (EConst 4);
-    UAdv (EConst 4);
-    UGuard SP (EConst 2);
-    UInt SP "WriteMode" 2 BE (EConst 2);
-    UAdv (EConst 2);
-    UGuard SP (EConst 4);
-    UInt SP "Reserved2" 4 BE (EConst 4);
-    UAdv (EConst 4);
-    UGuard SP (EConst 2);
-    UInt SP "DataLength" 2 BE (EConst 2);
-    UAdv (EConst 2);
-    UGuard SP (EConst 2);
-    UInt SP "DataOffset" 2 BE (EConst 2);
-    UAdv (EConst 2);
-    UOpaque "if c.GetParameters().WordCount == 0x0E { if len(rawParametersContent) < offset+4 { return offset, fmt.Errorf(""rawParametersContent too short for OffsetHigh"") } c.OffsetHigh = types.ULONG(binary.BigEndian.Uint32(rawParametersContent[offset : offset+4])) offset += 4 }";
-    UReset SD;
-    UGuard SD (EField "DataLength");
-    UBytes SD "Pad" (EField "DataLength");
-    UAdv (EField "DataLength");
-    UGuard SD (EField "DataLength");
-    UBytes SD "Data" (EField "DataLength");
-    UAdv (EField "DataLength")
-  ];
-  cd_opaque := ["Marshal: if c.OffsetHigh != 0x00000000 { buf4 = make([]byte, 4) binary.BigEndian.PutUint32(buf4, uint32(c.OffsetHigh)) rawParametersContent = append(rawParametersContent, buf4...) }"; "Unmarshal: if c.GetParameters().WordCount == 0x0E { if len(rawParametersContent) < offset+4 { return offset, fmt.Errorf(""rawParametersContent too short for OffsetHigh"") } c.OffsetHigh = types.ULONG(binary.BigEndian.Uint32(rawParametersContent[offset : offset+4])) offset += 4 }"]
+  cd_opaque := ["Unmarshal: c.Reserved = [3]types.ULONG{ types.ULONG(binary.BigEndian.Uint32(rawParametersContent[offset : offset+4])), types.ULONG(binary.BigEndian.Uint32(rawParametersContent[offset+4 : offset+8])), types.ULONG(binary.BigEndian.Uint32(rawParametersContent[offset+8 : offset+12])), }"]
 |}.
 Definition expected_cmd_WriteRequest : cmd_desc := {|
   cd_name := "WriteRequest";
@@ -713,13 +554,10 @@ Definition expected_untranslated : list cmd_desc := [
   expected_cmd_LockingAndxRequest;
   expected_cmd_NegotiateResponse;
   expected_cmd_OpenAndxRequest;
-  expected_cmd_ReadRawRequest;
   expected_cmd_SessionSetupAndxRequest;
   expected_cmd_SessionSetupAndxResponse;
   expected_cmd_SetInformationRequest;
   expected_cmd_TransactionRequest;
   expected_cmd_WriteAndCloseRequest;
-  expected_cmd_WriteAndxRequest;
-  expected_cmd_WriteRawRequest;
   expected_cmd_WriteRequest
 ].
